@@ -550,6 +550,14 @@ class OpWorld(World):
                 if env is not None:
                     self.harness.cur_cells_env = env
                     self.harness.sub_snaps.append(self.harness.capture_impl(strict=True))
+                sf = getattr(self.harness, "sync_fire", None)
+                if sf is not None and sf[0] == o.name and hs[sf[1]] is not None and not getattr(self.harness, "sync_fired", False):
+                    # scenario: this source notifies from INSIDE its subscribe call (before the caller got the handle)
+                    self.harness.sync_fired = True
+                    n0 = len(self.subs)
+                    a = [self.harness.make_element(it, it.ctx)] if sf[1] == 0 else ([fresh_exc(it.ctx, "err")] if sf[1] == 1 else [])
+                    it.call(hs[sf[1]], a, {})
+                    self.harness.sync_subs = [x[3] for x in self.subs[n0:]]
             return d
         if k == "scheduler" and method in ("schedule", "schedule_relative", "schedule_absolute"):
             return self.schedule_timer(it, method, args, kwargs)
@@ -2375,6 +2383,28 @@ class OpHarness:
         self.ghost_post(it, ctx, uid, cells_env, s, gpre)
         self.member_post(it, ctx, uid, s, mpre, done2)
 
+    def run_sync_subscribe(self, ctx, srcname, slot):
+        """a source that notifies from inside its subscribe call (cold synchronous sources, subjects that replay, empty() / of()
+        on an inline scheduler): whatever that notification made the operator subscribe must still be subscribed when subscribe
+        returns - the rest of subscribe (e.g. storing the handle of the source that just notified) must not release it"""
+        self.sync_fire, self.sync_fired, self.sync_subs = (srcname, slot), False, []
+        try:
+            try:
+                r = self.run_subscribe(ctx)
+            except PyExc:
+                r = None
+            ctx.results.clear()
+            if not self.sync_fired or not self.sync_subs:
+                raise PathEnd()
+            lost = [d for d in self.sync_subs if any(x is d for x in self.w.disposed)]
+            nm = ("on_next", "on_error", "on_completed")[slot]
+            self.record(ctx, f"{self.c.uid}/subscribe/{srcname}.{nm}-from-inside-subscribe/what-it-subscribed-is-still-subscribed-when-subscribe-returns",
+                        not lost, kind="frame",
+                        detail=f"released by the rest of subscribe: {[d.name for d in lost]} (the handle of the source that notified was stored over it)")
+            _ = r
+        finally:
+            self.sync_fire = None
+
     # -- driver -------------------------------------------------------------------------
     def run(self):
         c = self.c
@@ -2403,6 +2433,11 @@ class OpHarness:
                 for slot in (0, 1, 2):
                     paths = explore(lambda ctx, _f=fam, _k=slot: self.run_family_handler(ctx, _f, _k))
                     self._collect(paths)
+            if len(c.sources) > 1 or getattr(c, "late_subscribe", False):
+                for srcname in c.sources:
+                    for slot in (0, 2):
+                        paths = explore(lambda ctx, _s=srcname, _k=slot: self.run_sync_subscribe(ctx, _s, _k))
+                        self._collect(paths)
             for tname in getattr(c, "timers", {}):
                 paths = explore(lambda ctx, _t=tname: self.run_timer(ctx, _t))
                 self._collect(paths)
